@@ -194,33 +194,33 @@ fam(r"crrl::p256::PublicKey::verify_trunc_hash", ["C13"], [
 # ---------------- C15: FROST ----------------
 fam(r"crrl::frost::[a-z0-9]+::(SignatureShare|SignerPublicKey|Nonce|Commitment|Signature|GroupPrivateKey|SignerPrivateKeyShare|GroupPublicKey)::decode", ["C15"], [
     g(len_eq("buf", r"(\d+|sym:\w+)"), "exact encoded length"),
-    g(call(r"[a-z0-9]+::(scalar_decode|point_decode)", r"buf" + ANY), "every field goes through the suite's strict decoder"),
+    g(call(r"\w+::(scalar_decode|point_decode)", r"buf" + ANY), "every field goes through the suite's strict decoder"),
 ])
 fam(r"crrl::frost::[a-z0-9]+::(SignatureShare|SignerPublicKey|Nonce|Commitment|SignerPrivateKeyShare)::decode", ["C15"], [
     g(call(r"\w+::iszero", ANY, r"\w+::\w+"), "identifier must be non-zero"),
 ])
 fam(r"crrl::frost::[a-z0-9]+::Commitment::decode_list", ["C15"], [
     g(r"lencmp:\(len\(buf\) Rem \d+\) (Ne|Eq) 0", "no trailing garbage"),
-    g(call(r"Commitment::decode", ANY, r"(Commitment|[a-z0-9]+)::\w+"), "each element strictly decoded"),
-    g(call(r"[a-z0-9]+::scalar_cmp_vartime", ANY, r"(Commitment|[a-z0-9]+)::\w+"), "identifiers strictly increasing"),
+    g(call(r"Commitment::decode", ANY, r"(Commitment|\w+)::\w+"), "each element strictly decoded"),
+    g(call(r"\w+::scalar_cmp_vartime", ANY, r"(Commitment|\w+)::\w+"), "identifiers strictly increasing"),
 ])
 fam(r"crrl::frost::[a-z0-9]+::SignerPrivateKeyShare::sign", ["C15"], [
     g(r"lencmp:commitment_list Lt 2", "at least two commitments"),
-    g(call(r"[a-z0-9]+::scalar_cmp_vartime", ANY, r"(SignerPrivateKeyShare|[a-z0-9]+)::\w+"), "list sorted without duplicates"),
-    g(call(r"\w+::equals", ANY, r"(SignerPrivateKeyShare|[a-z0-9]+)::\w+"), "own identifier is in the list and own commitment matches"),
+    g(call(r"\w+::scalar_cmp_vartime", ANY, r"(SignerPrivateKeyShare|\w+)::\w+"), "list sorted without duplicates"),
+    g(call(r"\w+::equals", ANY, r"(SignerPrivateKeyShare|\w+)::\w+"), "own identifier is in the list and own commitment matches"),
 ])
 fam(r"crrl::frost::[a-z0-9]+::SignerPublicKey::verify_signature_share", ["C15"], [
-    g(call(r"[a-z0-9]+::commitment_list_is_sorted", ANY, ANY), "list sorted without duplicates"),
-    g(call(r"Point::verify_helper_vartime", ANY, r"(SignerPublicKey|[a-z0-9]+)::\w+"), "share equation"),
-    g(call(r"\w+::equals", ANY, r"(SignerPublicKey|[a-z0-9]+)::\w+"), "share identifier matches this signer"),
+    g(call(r"\w+::commitment_list_is_sorted", ANY, ANY), "list sorted without duplicates"),
+    g(call(r"Point::verify_helper_vartime", ANY, r"(SignerPublicKey|\w+)::\w+"), "share equation"),
+    g(call(r"\w+::equals", ANY, r"(SignerPublicKey|\w+)::\w+"), "share identifier matches this signer"),
 ])
 fam(r"crrl::frost::[a-z0-9]+::Coordinator::assemble_signature", ["C15"], [
-    g(call(r"[a-z0-9]+::commitment_list_is_sorted", ANY, ANY), "list sorted without duplicates"),
-    g(call(r"Point::verify_helper_vartime", ANY, r"(Coordinator|[a-z0-9]+)::\w+"), "aggregate signature verified before being returned"),
-    g(call(r"Point::verify_helper_vartime", ANY, r"(SignerPublicKey|[a-z0-9]+)::\w+"), "every share verified"),
+    g(call(r"\w+::commitment_list_is_sorted", ANY, ANY), "list sorted without duplicates"),
+    g(call(r"Point::verify_helper_vartime", ANY, r"(Coordinator|\w+)::\w+"), "aggregate signature verified before being returned"),
+    g(call(r"Point::verify_helper_vartime", ANY, r"(SignerPublicKey|\w+)::\w+"), "every share verified"),
 ])
 fam(r"crrl::frost::[a-z0-9]+::GroupPublicKey::verify", ["C15"], [
-    g(call(r"Point::verify_helper_vartime", ANY, r"(GroupPublicKey|[a-z0-9]+)::\w+"), "signature equation"),
+    g(call(r"Point::verify_helper_vartime", ANY, r"(GroupPublicKey|\w+)::\w+"), "signature equation"),
 ])
 fam(r"crrl::frost::[a-z0-9]+::SignerPrivateKeyShare::verify_split", ["C15"], [
     g(call(r"Point::equals", ANY, ANY), "share consistent with the dealer's commitment"),
